@@ -57,6 +57,8 @@ var c15Fragments = []struct {
 	{"nonascii", []string{"\u00e9", "\u00fc", "\u65e5\u672c\u8a9e", "\u03a9", "\u00a0", "\u0085", "\u2028", "\u00df", "\ufffd"}},
 	{"astral", []string{"\U0001F600", "\U0001D518", "\U0010FFFF", "\U00010000"}},
 	{"plain", []string{"a", "urn:x:y", "https://h.example/p?q=1&r=2#f", "user@example.com", "_id-1", "true", "2.0", "xmlns:saml", "="}},
+	// characters that are list / path / key-value separators in OTHER syntaxes: values are opaque, nothing splits or joins them
+	{"separator", []string{",", ", ", ";", "|", "idp=login.example.com,sid=42", "a,b,c", "k=v;k2=v2", ":", "/", "\\", "+", "%2C", "%20"}},
 }
 
 var c15OutsideFrags = []string{"\x00", "\x01", "\x0b", "\x1f", "\xff", "\xc3", "\xed\xa0\x80", "\uFFFE", "\uFFFF", "\xf4\x90\x80\x80"}
